@@ -26,6 +26,7 @@ def units(tier):
     us += [("FULL", 1, 0, 1), ("WHOLE",)] + [("FULL", 2, i, 16) for i in range(16)]
     us += [("AWKWARD", n, i, 4 if n < 3 else 16, True) for n in (1, 2, 3) for i in range(4 if n < 3 else 16)]
     us += [("SKELETON", n, i, 4 if n < 3 else 16, False) for n in (1, 2, 3) for i in range(4 if n < 3 else 16)]
+    us += [("SKELETON_RX", n, i, 4 if n < 3 else 16, False) for n in (0, 1, 2, 3) for i in range(4 if n < 3 else 16)]
     return us
 
 
@@ -173,7 +174,7 @@ def run_unit(unit):
     if unit[0] == "WHOLE":
         return run_whole(res)
     kind, n, shard, k = unit[:4]
-    if kind in ("CLASSREP", "AWKWARD", "SKELETON"):
+    if kind in ("CLASSREP", "AWKWARD", "SKELETON", "SKELETON_RX"):
         all_variants = unit[4]
         rotations = [None]
         if kind == "AWKWARD":
@@ -184,8 +185,12 @@ def run_unit(unit):
             # skeleton operators over leaves that are small expressions themselves (up to 3 + 4 = 7 operators per tree), every rotation
             sl = E.SUBTREE_LEAVES
             rotations = [sl[r:] + sl[:r] for r in range(len(sl))]
+        if kind == "SKELETON_RX":
+            # the same with comparisons against regular expressions that hold brackets / quotes / operator words
+            sl = E.REGEX_LEAVES
+            rotations = [sl[r:] + sl[:r] for r in range(len(sl))]
         for ops_ in rotations:
-            for i, ast in enumerate(list(E.asts(n, E.CLASS_BIN, E.CLASS_UN, ops_))):
+            for i, ast in enumerate(list(E.asts(n, ["OR", "AND", "="] if kind == "SKELETON_RX" else E.CLASS_BIN, E.CLASS_UN[:1] if kind == "SKELETON_RX" else E.CLASS_UN, ops_))):
                 if i % k != shard or not E.well_formed(ast):
                     continue
                 for full, tight in (VARIANTS if all_variants else VARIANTS[:1]):
@@ -216,6 +221,10 @@ WHOLE = [
     ("class", "expression", "{1e3,x}", "{1e3,x}"), ("class", "expression", "{true,FALSE,Null}", "{true,FALSE,Null}"), ("class", "expression", "{a,'b c',\"d\"}", "{a,'b c',\"d\"}"),
     ("class", "expression", "([a] IN {1.50,2})", "( [a] IN {1.50,2} )"), ("class", "expression", "/^0+1\\.50$/i", "/^0+1\\.50$/i"),
     ("class", "text", "(tostring([a_B],'%05.1f x'))", "(tostring([a_B],'%05.1f x'))"), ("class", "text", "[ATTR_Name]", "[ATTR_Name]"),
+    ("class", "expression", "{[b],[c]}", "{[b],[c]}"), ("class", "expression", "([a] IN {[b],x,[c_D]})", "( [a] IN {[b],x,[c_D]} )"),
+    ("class", "expression", '{"#FF0000",\'#00ff00\'}', '{"#FF0000",\'#00ff00\'}'), ("class", "expression", '("[c]" = "#FF0000")', '( "[c]" = "#FF0000" )'),
+    ("class", "expression", "('#FfF' = [c])", "( '#FfF' = [c] )"), ("class", "expression", "([a] ~ /a)b/)", "( [a] ~ /a)b/ )"),
+    ("layer", "filter", "([a] ~* /(x/)", "( [a] ~* /(x/ )"), ("class", "text", '(tostring([a],"#FFF"))', '(tostring([a],"#FFF"))'),
 ]
 
 
